@@ -648,6 +648,14 @@ clientReplyContext::cacheHit(const StoreIOBuffer result)
              */
             http->updateLoggingTags(LOG_TCP_MISS);
             processMiss();
+        } else if (r->flags.loopDetected) {
+            debugs(88, 3, "validate HIT object? NO. Forwarding loop detected. Do MISS (processMiss() denies loops).");
+            /*
+             * Revalidation would send this looping request upstream again;
+             * processMiss() is where loops are refused.
+             */
+            http->updateLoggingTags(LOG_TCP_MISS);
+            processMiss();
         } else if (r->flags.noCache) {
             debugs(88, 3, "validate HIT object? NO. Client sent CC:no-cache. Do CLIENT_REFRESH_MISS");
             /*
